@@ -543,12 +543,16 @@ def check_c18(pid, tier, t0, replay_key):
     findings += ft7
     obl += ot7
     st.update(stt7)
+    ft8, ot8, stt8 = e5.rule_t8(P)
+    findings += ft8
+    obl += ot8
+    st.update(stt8)
     st["name_flow_prefixes"] = list(NAME_FLOW)
     common.check_floors(pid, st, tables)
     if tier == "thorough":
         st["selftest"] = run_selftest(pid)
     explanation = (
-        "Decides five clauses of C18. (T7) 'ids below 256 are used only where the specification allows': fvar and STAT pick a name id by string among all ids carrying it, so every accepting path of their NameId predicates must establish id >= 256 or id in the reserved set that the allocator (StaticMetadata::new) and the fvar specification agree on (2, 17), and only the default instance may ask for a reserved id (this found subfamilyNameID=1 for a default instance named like the family; repaired). (N5) every name record derived from the source reaches the merge with the feature file's records, which replaces one only on an equal platform/encoding/language/name-id key (no dropping adapter in between). (T4) 'name ids coming from feature code are shifted past the ids already used': every output-table field that "
+        "Decides six clauses of C18. (T8) 'has a non-empty record': inside StaticMetadata::new every registration of a NamedInstance field (name, PostScript name) as a name record is preceded by an emptiness test of that field (found: stylename=\"\" gave fvar an empty record; repaired). (T7) 'ids below 256 are used only where the specification allows': fvar and STAT pick a name id by string among all ids carrying it, so every accepting path of their NameId predicates must establish id >= 256 or id in the reserved set that the allocator (StaticMetadata::new) and the fvar specification agree on (2, 17), and only the default instance may ask for a reserved id (this found subfamilyNameID=1 for a default instance named like the family; repaired). (N5) every name record derived from the source reaches the merge with the feature file's records, which replaces one only on an equal platform/encoding/language/name-id key (no dropping adapter in between). (T4) 'name ids coming from feature code are shifted past the ids already used': every output-table field that "
         "receives an id minted by fea-rs's NameBuilder (feature parameters, STAT) is one that Compilation::remap_name_ids adjusts - a forgotten field "
         "keeps naming the old id, i.e. no record or someone else's (this found FeatureParams::Size.name_entry, repaired). (T5) the function that hands out a "
         "fresh feature-code name id advances the allocator on every path (a group of empty names used to leave it untouched, so two features shared one "
